@@ -3,6 +3,7 @@ import json
 import math
 import os
 import re
+import time
 from fractions import Fraction
 
 import esrv
@@ -456,8 +457,11 @@ def correspondence(ctx):
             rep.fail("broken-correspondence", "cannot read the shipped Pantheon+SH0ES.dat redshift column", "C19:xvar", observed=err[-800:],
                      theorem="real redshift sample")
     try:
+        t0 = time.time()
         results = run_impl(ctx, jobs)
+        t1 = time.time()
         model = run_model(jobs, results, shard=30)
+        rep.extra["timing_s"] = {"impl_jobs": round(t1 - t0, 1), "coq_model": round(time.time() - t1, 1)}
     except RuntimeError as e:
         rep.fail("broken-correspondence", str(e)[:1500], "C19:corr-driver", theorem="correspondence driver")
         return
@@ -479,7 +483,9 @@ def correspondence(ctx):
             stale.append({"tag": job["tag"], "second_call_exc": r[1]["exc"], "grid_rebuilt": r[1]["data_x"] != r[0]["data_x"]})
     rep.extra["stale_cache_observed"] = stale[:6]
     # E. analytic path (integrated=True) versus numeric path, within the proved bound
+    t2 = time.time()
     analytic(ctx, const, delta_real, min_nz, rng)
+    rep.extra.setdefault("timing_s", {})["analytic"] = round(time.time() - t2, 1)
     # F. thorough: the real constructor
     if not quick:
         real_ctor(ctx, C)
@@ -654,6 +660,7 @@ def real_ctor(ctx, C):
 # ---------------------------------------------------------------- search: the property on the real method
 def search(ctx):
     rep = ctx.report
+    tS = time.time()
     try:
         C = get_consts(ctx)
     except RuntimeError as e:
@@ -769,6 +776,7 @@ def search(ctx):
                     nfail += 1
                     rep.fail("failing-input", "integration grid starts at %r with largest cell %r (specified: starts at 1, cells <= %r)" % (xs[0], hh, h),
                              "C19:grid:too-coarse", input={"zp1": zs, "delta_z": delta, "min_nz": min_nz}, observed=[xs[0], hh], expected=[1.0, h])
+    rep.extra.setdefault("timing_s", {})["search"] = round(time.time() - tS, 1)
     rep.extra["search_worst_error_over_bound"] = worst
     rep.extra["second_order_bound_used"] = HAVE_C2
     # boundary probe: a datum below 1 (negative redshift).  Proved: C19_grid_starts_below_one.
